@@ -245,7 +245,7 @@ class Scen(CompScenario):
 class Prop(PropBase):
     ID = "C15"
     tiers = {
-        "quick": {"runs": 320, "selftest_runs": 4},
+        "quick": {"runs": 256, "selftest_runs": 4},
         "thorough": {"runs": 8000, "selftest_runs": 32},
     }
     rule = ("one run = one (depth, read_width, write_width, write_max_count, element width) configuration driven for "
